@@ -12,7 +12,8 @@ harness/scenario.py (DynServerSet, ticks, outcome_kind).  What is added here:
   AsyncProcessRequest).  All records go into the world's single ordered log together with the network events.
 * configurable back-off (initial / max / exponent).
 
-A case is {'kind':, 'config': {...}, 'ops': [{'at': tick, 'op': 'call'|'down'|'up'|'close', ...}]} (ticks of
+A case is {'kind':, 'config': {...}, 'ops': [{'at': tick, 'op': 'call'|'down'|'up'|'close', ...}]} (a call may carry
+'close_on_error': its caller closes the client the moment the call completes with an error) (ticks of
 1/64 s since T0; `ops` is what the runner's shrinker removes elements from).
 """
 import random
@@ -301,6 +302,13 @@ def _run(case, cfg, w):
   w.log.append((w.clock.now, 'client-built', client is not None))
   closed = [False]
 
+  def do_close(who):
+    if client is not None and not closed[0]:
+      closed[0] = True
+      w.log.append((w.clock.now, 'client-close', who))
+      client.DispatcherClose()
+      trace['closed_at'] = S.ticks(w.clock.now)
+
   def do_op(e):
     op = e['op']
     if op == 'call':
@@ -322,6 +330,15 @@ def _run(case, cfg, w):
         rec['done'].append({'at': S.ticks(w.clock.now), 'kind': k, 'value': v})
         w.log.append((w.clock.now, 'call-done', rec['id'], k))
       ar.rawlink(on_done)
+      if e.get('close_on_error'):
+        # an application that gives up on the client the moment a call fails: the caller is blocked on the result
+        # and closes the client as soon as it wakes up with an error - i.e. possibly *between* a fault being raised
+        # below and its delivery to the sinks above (fault notifications travel in their own greenlets)
+        def caller(ar=ar, rec=rec):
+          ar.wait()
+          if not ar.successful() and not closed[0]:
+            do_close('caller of %s' % rec['id'])
+        w.greenlets.append(gevent.spawn(caller))
     elif op == 'down':
       w.log.append((w.clock.now, 'ep-down', e['port'], e.get('mode', 'reset')))
       servers[e['port']].go_down(e.get('mode', 'reset'))
@@ -329,11 +346,7 @@ def _run(case, cfg, w):
       w.log.append((w.clock.now, 'ep-up', e['port']))
       servers[e['port']].go_up()
     elif op == 'close':
-      if client is not None and not closed[0]:
-        closed[0] = True
-        w.log.append((w.clock.now, 'client-close'))
-        client.DispatcherClose()
-        trace['closed_at'] = S.ticks(w.clock.now)
+      do_close('driver')
 
   for e in sorted(case['ops'], key=lambda e: e['at']):
     w.advance_to(max(w.clock.now, T0 + e['at'] * V.TICK))
